@@ -196,19 +196,30 @@ def _write_if_changed(name, txt):
 
 
 def regenerate():
-    """returns (changed, error)"""
+    """returns (changed, errors) with errors : {generated-file-name: message};
+    a failing translator only concerns the checks whose cone uses its file"""
     changed = False
+    errors = {}
     try:
         changed |= _write_if_changed("Consts", generate())
-        for m in discovered():
+    except TieError as e:
+        errors["Consts"] = str(e)
+    except Exception as e:
+        errors["Consts"] = "translator crashed: %r" % (e,)
+    try:
+        mods = discovered()
+    except Exception as e:
+        return changed, {"*": "cannot import translators: %r" % (e,)}
+    for m in mods:
+        try:
             out = list(HEADER)
             m.extract(out)
             changed |= _write_if_changed(m.NAME, "\n".join(out) + "\n")
-    except TieError as e:
-        return False, str(e)
-    except Exception as e:
-        return False, "translator crashed: %r" % (e,)
-    return changed, None
+        except TieError as e:
+            errors[m.NAME] = str(e)
+        except Exception as e:
+            errors[m.NAME] = "translator crashed: %r" % (e,)
+    return changed, errors
 
 
 if __name__ == "__main__":
